@@ -41,6 +41,7 @@ def outOnly : Step → Bool
   | .retIfClosed => true
   | .retIfClosing => true
   | .brIfClosing _ => true
+  | .brIfErr _ => true
   | .setCloseTime => true
   | _ => false
 
@@ -147,16 +148,16 @@ theorem compile_headW2 (v : Variant) (cfg : Cfg) (call : Call) : headW2 (compile
     (repeat' split) <;> simp [headW2]
 
 theorem alt_disc (v : Variant) (a : Alt) : disc (altSteps v a) = true := by
-  cases a; simp only [altSteps, closeSocketProg]; split <;> simp [disc, holds, noWrite, isWrite, headW2, outOnly, inOnly]
+  cases a <;> simp only [altSteps, closeSocketProg] <;> (try split) <;> simp [disc, holds, noWrite, isWrite, headW2, outOnly, inOnly]
 
 theorem alt_holds (v : Variant) (a : Alt) : holds (altSteps v a) = false := by
-  cases a; simp only [altSteps, closeSocketProg]; split <;> simp [holds]
+  cases a <;> simp only [altSteps, closeSocketProg] <;> (try split) <;> simp [holds]
 
 theorem alt_headW2 (v : Variant) (a : Alt) : headW2 (altSteps v a) = false := by
-  cases a; simp only [altSteps, closeSocketProg]; split <;> simp [headW2]
+  cases a <;> simp only [altSteps, closeSocketProg] <;> (try split) <;> simp [headW2]
 
 theorem alt_noWrite (v : Variant) (a : Alt) : noWrite (altSteps v a) = true := by
-  cases a; simp only [altSteps, closeSocketProg]; split <;> simp [noWrite, isWrite]
+  cases a <;> simp only [altSteps, closeSocketProg] <;> (try split) <;> simp [noWrite, isWrite]
 
 /-! ### one step, taken apart -/
 
@@ -166,6 +167,7 @@ inductive Moves (v : Variant) : Step → List Step → List Step → Prop
   | ret (st r) : (st = .retIfClosed ∨ st = .retIfClosing) → Moves v st r (afterClose r)
   | fail (st r) : (st = .chkSock ∨ st = .chkClosed ∨ st = .chkClosing ∨ st = .chkBoth) → Moves v st r (toRelease r)
   | alt (a r) : Moves v (.brIfClosing a) r (altSteps v a)
+  | altErr (a r) : Moves v (.brIfErr a) r (altSteps v a)
 
 theorem exec_moves (v : Variant) (t : Tid) (st : Step) (r : List Step) (sh : Shared) (c : Cur) :
     Moves v st r (exec v t st r sh c).2.rest := by
@@ -179,16 +181,18 @@ theorem exec_moves (v : Variant) (t : Tid) (st : Step) (r : List Step) (sh : Sha
     | exact Moves.fail _ _ (Or.inr (Or.inr (Or.inl rfl)))
     | exact Moves.fail _ _ (Or.inr (Or.inr (Or.inr rfl)))
     | exact Moves.alt _ _
+    | exact Moves.altErr _ _
 
 theorem moves_eq {v : Variant} {st : Step} {r r' : List Step} (m : Moves v st r r') :
     r' = r ∨ ((st = .retIfClosed ∨ st = .retIfClosing) ∧ r' = afterClose r) ∨
       ((st = .chkSock ∨ st = .chkClosed ∨ st = .chkClosing ∨ st = .chkBoth) ∧ r' = toRelease r) ∨
-      (∃ a, st = .brIfClosing a ∧ r' = altSteps v a) := by
+      (∃ a, (st = .brIfClosing a ∨ st = .brIfErr a) ∧ r' = altSteps v a) := by
   cases m with
   | next => exact Or.inl rfl
   | ret _ _ h => exact Or.inr (Or.inl ⟨h, rfl⟩)
   | fail _ _ h => exact Or.inr (Or.inr (Or.inl ⟨h, rfl⟩))
-  | alt a _ => exact Or.inr (Or.inr (Or.inr ⟨a, rfl, rfl⟩))
+  | alt a _ => exact Or.inr (Or.inr (Or.inr ⟨a, Or.inl rfl, rfl⟩))
+  | altErr a _ => exact Or.inr (Or.inr (Or.inr ⟨a, Or.inr rfl, rfl⟩))
 
 theorem moves_disc {v : Variant} {st : Step} {r r' : List Step} (m : Moves v st r r')
     (d : disc (st :: r) = true) : disc r' = true := by
@@ -198,6 +202,7 @@ theorem moves_disc {v : Variant} {st : Step} {r r' : List Step} (m : Moves v st 
   | ret _ _ _ => exact disc_suffix (afterClose_suffix r) dt
   | fail _ _ _ => exact disc_suffix (toRelease_suffix r) dt
   | alt a _ => exact alt_disc v a
+  | altErr a _ => exact alt_disc v a
 
 /-- whether the thread holds the lock after the step -/
 def holdsAfter (st : Step) (r : List Step) : Bool :=
@@ -231,6 +236,10 @@ theorem moves_holds {v : Variant} {st : Step} {r r' : List Step} (m : Moves v st
     rw [alt_holds]
     simp only [disc, outOnly, Bool.and_eq_true] at d
     simp_all [holdsAfter]
+  | altErr a _ =>
+    rw [alt_holds]
+    simp only [disc, outOnly, Bool.and_eq_true] at d
+    simp_all [holdsAfter]
 
 theorem moves_headW2 {v : Variant} {st : Step} {r r' : List Step} (m : Moves v st r r')
     (d : disc (st :: r) = true) (h : headW2 r' = true) : ∃ f, st = .write1 f ∧ r' = r := by
@@ -240,6 +249,7 @@ theorem moves_headW2 {v : Variant} {st : Step} {r r' : List Step} (m : Moves v s
   | ret _ _ _ => rw [headW2_afterClose r (disc_tail d)] at h; cases h
   | fail _ _ _ => rw [headW2_toRelease] at h; cases h
   | alt a _ => rw [alt_headW2] at h; cases h
+  | altErr a _ => rw [alt_headW2] at h; cases h
 
 theorem step_cases (v : Variant) (cfg : Cfg) (s : State) (t : Tid) :
     step v cfg s t = s ∨
@@ -522,7 +532,7 @@ theorem wireInv_step (v : Variant) (cfg : Cfg) (s : State) (t : Tid) (L : LockIn
         · exact h
         · rcases h with h | h <;> cases h
         · rcases h with h | h | h | h <;> cases h
-        · cases h
+        · rcases h with h | h <;> cases h
       have hbefore : s.sh.wire = pairs (frames s.sh.wire) := by
         apply W.whole
         intro u
@@ -915,6 +925,8 @@ def Call.src (cfg : Cfg) : Call → PaySrc
   | .autoPing => .lit []
   | .onData _ => .lit []
   | .onData2 _ _ => .lit []
+  | .connect => .lit []
+  | .abandon => .lit []
 
 def Call.frame (cfg : Cfg) (call : Call) : FrameSrc := ⟨call.op, call.src cfg⟩
 
@@ -939,6 +951,7 @@ def isJump : Step → Bool
   | .retIfClosed => true
   | .retIfClosing => true
   | .brIfClosing _ => true
+  | .brIfErr _ => true
   | _ => false
 
 def noJump (r : List Step) : Bool := r.all (fun s => !isJump s)
@@ -976,7 +989,7 @@ theorem compile_send (v : Variant) (cfg : Cfg) (call : Call) (h : call.isSend = 
     (repeat' split) <;> simp [noJump, hasW2, isJump, isW2]
 
 theorem alt_srcOk (v : Variant) (a : Alt) (f0 : FrameSrc) (m : Bytes) : srcOk f0 m (altSteps v a) = true := by
-  cases a; simp only [altSteps, closeSocketProg]; split <;> simp [srcOk]
+  cases a <;> simp only [altSteps, closeSocketProg] <;> (try split) <;> simp [srcOk]
 
 theorem all_suffix {p : Step → Bool} {r r' : List Step} (h : r' <:+ r) (n : r.all p = true) : r'.all p = true := by
   obtain ⟨q, rfl⟩ := h
